@@ -766,12 +766,27 @@ parameter(struct scope *s)
 	return d;
 }
 
+/* the name of a member of the anonymous struct or union a that t already has */
+static char *
+dupmember(struct type *t, struct type *a)
+{
+	struct member *m;
+	char *name;
+
+	for (m = a->u.structunion.members; m; m = m->next) {
+		if (m->name ? typemember(t, m->name, &(unsigned long long){0}) != NULL : (name = dupmember(t, m->type)) != NULL)
+			return m->name ? m->name : name;
+	}
+	return NULL;
+}
+
 static void
 addmember(struct structbuilder *b, struct qualtype mt, char *name, int align, unsigned long long width)
 {
 	struct type *t = b->type;
 	struct member *m;
 	size_t end;
+	char *dup;
 	/* unnamed bit-fields and anonymous members have no name to print */
 	const char *dname = name ? name : "<unnamed>";
 
@@ -797,6 +812,11 @@ addmember(struct structbuilder *b, struct qualtype mt, char *name, int align, un
 	assert(mt.type->align > 0);
 	if (name && typemember(t, name, &(unsigned long long){0}))
 		error(&tok.loc, "duplicate member '%s'", dname);
+	if (!name && width == -1 && (mt.type->kind == TYPESTRUCT || mt.type->kind == TYPEUNION)) {
+		dup = dupmember(t, mt.type);
+		if (dup)
+			error(&tok.loc, "duplicate member '%s'", dup);
+	}
 	if (name || width == -1) {
 		m = xmalloc(sizeof(*m));
 		m->type = mt.type;
